@@ -163,6 +163,25 @@ class ConcBk:
         return not c
 
 
+class FracBk(ConcBk):
+    """the same specs on exact rationals (fractions.Fraction): finite identities are decided by computation"""
+    from fractions import Fraction as _Fr
+    zero = _Fr(0)
+
+    @staticmethod
+    def sum(lo, hi, fn):
+        from fractions import Fraction
+        acc = Fraction(0)
+        for u in range(lo, hi):
+            acc = acc + fn(u)
+        return acc
+
+    @staticmethod
+    def when(cond, thunk):
+        from fractions import Fraction
+        return thunk() if cond else Fraction(0)
+
+
 # ---------------------------------------------------------------------------
 # reference dual-tree column operations (dtcwt/numpy/lowlevel.py), one axis.
 # tap(t) are the reference's (un-reversed) filter arrays.  delta = 0 when
